@@ -10,16 +10,36 @@ From SV Require Import C13.Stream.
 (* lists                                                                      *)
 
 Lemma frames_app : forall a b, frames (a ++ b) = frames a ++ frames b.
-Proof. induction a as [|[i|] a IH]; intros; simpl; rewrite ?IH; reflexivity. Qed.
+Proof. induction a as [|[i p|] a IH]; intros; simpl; rewrite ?IH; reflexivity. Qed.
 
 Lemma sentinels_app : forall a b, sentinels (a ++ b) = sentinels a + sentinels b.
-Proof. induction a as [|[i|] a IH]; intros; simpl; rewrite ?IH; reflexivity. Qed.
+Proof. induction a as [|[i p|] a IH]; intros; simpl; rewrite ?IH; reflexivity. Qed.
 
-Lemma frames_map : forall l, frames (map Frame l) = l.
+Lemma frames_map : forall c l, frames (map (fr c) l) = l.
 Proof. induction l; simpl; congruence. Qed.
 
-Lemma sentinels_map : forall l, sentinels (map Frame l) = 0.
+Lemma sentinels_map : forall c l, sentinels (map (fr c) l) = 0.
 Proof. induction l; simpl; congruence. Qed.
+
+Lemma pl_eqb_eq : forall a b, pl_eqb a b = true -> a = b.
+Proof.
+  intros [[h1 w1] v1] [[h2 w2] v2] H. unfold pl_eqb in H.
+  apply andb_prop in H. destruct H as [H H3]. apply andb_prop in H. destruct H as [H1 H2].
+  apply Nat.eqb_eq in H1, H2, H3. subst. reflexivity.
+Qed.
+
+Lemma pl_eqb_refl : forall a, pl_eqb a a = true.
+Proof. intros [[h w] v]. unfold pl_eqb. rewrite !Nat.eqb_refl. reflexivity. Qed.
+
+(* an item that occurs in the specified stream carries the payload of its own index *)
+Lemma stream_own : forall c l a i p b,
+  a ++ Frame i p :: b = map (fr c) l ++ [Sentinel] -> p = src c i.
+Proof.
+  intros c l a i p b H.
+  assert (Hin : In (Frame i p) (map (fr c) l ++ [Sentinel])) by (rewrite <- H; apply in_elt).
+  apply in_app_or in Hin. destruct Hin as [Hin|[E|[]]]; [|discriminate].
+  apply in_map_iff in Hin. destruct Hin as (j & E & _). unfold fr in E. injection E as <- <-. reflexivity.
+Qed.
 
 Lemma seq_cons_lt : forall i n, i < n -> seq i (n - i) = i :: seq (S i) (n - S i).
 Proof. intros. replace (n - i) with (S (n - S i)) by lia. reflexivity. Qed.
@@ -27,12 +47,12 @@ Proof. intros. replace (n - i) with (S (n - S i)) by lia. reflexivity. Qed.
 Lemma seq_nil_le : forall i n, n <= i -> seq i (n - i) = [].
 Proof. intros. replace (n - i) with 0 by lia. reflexivity. Qed.
 
-Lemma map_frame_sent_inj : forall a b r,
-  map Frame a ++ Sentinel :: r = map Frame b ++ [Sentinel] -> a = b /\ r = [].
+Lemma map_frame_sent_inj : forall c a b r,
+  map (fr c) a ++ Sentinel :: r = map (fr c) b ++ [Sentinel] -> a = b /\ r = [].
 Proof.
-  induction a as [|x a IH]; destruct b as [|y b]; simpl; intros r H; inversion H; subst.
+  intros c. induction a as [|x a IH]; destruct b as [|y b]; simpl; intros r H; inversion H; subst.
   - auto.
-  - destruct (IH _ _ H2). subst. auto.
+  - destruct (IH _ _ H3). subst. auto.
 Qed.
 
 Lemma concat_flush : forall acc, concat (flush acc) = acc.
@@ -85,17 +105,17 @@ Record Inv (c : cfg) (s : st) : Prop := mkInv {
   inv_pos :
     match pp s with
     | PLoop i => start_ c <= i /\ (i = start_ c \/ i <= stop c)
-    | PPut i => start_ c <= i /\ i < stop c
+    | PPut i p => start_ c <= i /\ i < stop c /\ p = src c i
     | _ => True
     end;
   (* everything taken, queued, in flight, unread and the marker not yet put
      is exactly the specified stream, in order *)
   inv_stream :
-    taken s ++ q s ++ map Frame (in_flight s ++ unread c s) ++ pending_marker (pp s)
-    = map Frame (delivered c) ++ [Sentinel];
+    taken s ++ q s ++ map (fr c) (in_flight s ++ unread c s) ++ pending_marker (pp s)
+    = map (fr c) (delivered c) ++ [Sentinel];
   (* what the consumer took is what it yielded and holds, plus the marker iff done *)
   inv_taken :
-    taken s = map Frame (concat (yielded s) ++ collecting s)
+    taken s = map (fr c) (concat (yielded s) ++ collecting s)
               ++ (if done_ s then [Sentinel] else []);
   inv_pc :
     match cc s with
@@ -142,7 +162,7 @@ Qed.
 Ltac sub_pc := repeat match goal with
   | H : ?x = PIdle |- _ => is_var x; subst x
   | H : ?x = PLoop _ |- _ => is_var x; subst x
-  | H : ?x = PPut _ |- _ => is_var x; subst x
+  | H : ?x = PPut _ _ |- _ => is_var x; subst x
   | H : ?x = PSent |- _ => is_var x; subst x
   | H : ?x = PDone |- _ => is_var x; subst x
   | H : ?x = CStart |- _ => is_var x; subst x
@@ -150,7 +170,7 @@ Ltac sub_pc := repeat match goal with
   | H : ?x = CProcess _ |- _ => is_var x; subst x
   | H : ?x = CJoin |- _ => is_var x; subst x
   | H : ?x = CFinished |- _ => is_var x; subst x
-  | H : ?x = Frame _ :: _ |- _ => is_var x; subst x
+  | H : ?x = Frame _ _ :: _ |- _ => is_var x; subst x
   | H : ?x = Sentinel :: _ |- _ => is_var x; subst x
   end.
 
@@ -172,7 +192,7 @@ Proof.
   - (* read ok *)
     destruct Hpos as [Hs Hi]. pose proof (read_ok_lt_stop c i Hs Hi H1 H2) as Hlt.
     constructor; unfold collecting, in_flight, unread; simpl.
-    + lia.
+    + repeat split; auto; lia.
     + rewrite <- Hstr. simpl. rewrite (seq_cons_lt i (stop c) Hlt). reflexivity.
     + exact Htak.
     + destruct k0; try exact Hpc. destruct Hpc as [E _]; discriminate.
@@ -194,6 +214,7 @@ Proof.
     + destruct k0; try exact Hpc. destruct Hpc as [E _]; discriminate.
     + discriminate.
   - (* put *)
+    destruct Hpos as (Hs & Hi & Ep). subst p.
     constructor; unfold collecting, in_flight, unread; simpl.
     + lia.
     + rewrite <- Hstr. simpl. rewrite <- !app_assoc. reflexivity.
@@ -207,8 +228,9 @@ Proof.
     + exact Htak.
     + destruct k0; try exact Hpc. destruct Hpc as [E _]; discriminate.
     + discriminate.
-  - (* get frame *)
+  - (* get frame: the item taken is in the specified stream, so it carries its own payload *)
     destruct Hpc as (Hd & Hk & Hlen & Hy). subst d.
+    assert (Ep : p = src c i) by (eapply stream_own; exact Hstr). subst p.
     constructor; unfold collecting, in_flight, unread; simpl.
     + exact Hpos.
     + rewrite <- Hstr. simpl. rewrite <- !app_assoc. reflexivity.
@@ -295,6 +317,23 @@ Proof.
   split; [lia|]. destruct (pp s); simpl in E; split; intros; try discriminate; try lia; auto.
 Qed.
 
+(* "each with its own original size (and video index)": every frame item that the consumer has taken
+   or that waits in the queue carries the payload the source gives for ITS index; so does the item
+   in flight (inv_pos) *)
+Lemma inv_items_own : forall c s i p, Inv c s -> In (Frame i p) (taken s ++ q s) -> p = src c i.
+Proof.
+  intros c s i p [_ Hstr _ _ _] Hin. apply in_split in Hin. destruct Hin as (l1 & l2 & E).
+  rewrite app_assoc, E, <- app_assoc in Hstr. simpl in Hstr. eapply stream_own; exact Hstr.
+Qed.
+
+Lemma reach_items_own : forall c s i p, reach c s ->
+  (In (Frame i p) (taken s ++ q s) \/ pp s = PPut i p) -> p = src c i.
+Proof.
+  intros c s i p Hr [Hin|Hp].
+  - eapply inv_items_own; eauto. apply reach_inv; auto.
+  - pose proof (inv_pos c s (reach_inv c s Hr)) as H. rewrite Hp in H. tauto.
+Qed.
+
 (* once the consumer has seen the marker the producer is dead and the queue empty:
    nothing is ever left behind the marker *)
 Lemma inv_done_true : forall c s, Inv c s -> done_ s = true -> pp s = PDone /\ q s = [].
@@ -355,7 +394,7 @@ Qed.
 
 Lemma final_spec_inv : forall c s, Inv c s -> final s ->
   q s = [] /\ done_ s = true /\
-  taken s = map Frame (delivered c) ++ [Sentinel] /\
+  taken s = map (fr c) (delivered c) ++ [Sentinel] /\
   concat (yielded s) = delivered c /\
   chunks_ok (batch c) (yielded s).
 Proof.
@@ -366,7 +405,7 @@ Proof.
   simpl in *. rewrite !app_nil_r in *.
   repeat split; auto.
   rewrite Htak in Hstr.
-  assert (E : map Frame (concat (yielded s)) ++ Sentinel :: [] = map Frame (delivered c) ++ [Sentinel])
+  assert (E : map (fr c) (concat (yielded s)) ++ Sentinel :: [] = map (fr c) (delivered c) ++ [Sentinel])
     by exact Hstr.
   apply map_frame_sent_inj in E. tauto.
 Qed.
@@ -391,7 +430,7 @@ Proof.
   - destruct Hpc as [E _]. contradiction.
   - right. destruct Hq as [Hq|[a E]]; [|discriminate].
     destruct Hpc as (_ & Hk & _). destruct k as [|k]; [lia|].
-    destruct (q s) as [|[i|] r] eqn:Eq; [contradiction| |].
+    destruct (q s) as [|[i p|] r] eqn:Eq; [contradiction| |].
     + eexists. eexists. eapply l_get_frame; eauto.
     + eexists. eexists. eapply l_get_sentinel; eauto.
   - right. eexists. eexists. eapply l_process; eauto.
@@ -407,7 +446,7 @@ Qed.
 Lemma deadlock_free_inv : forall c s, Inv c s -> ~ final s -> exists s', step c s s'.
 Proof.
   intros c s Hi Hnf. pose proof Hi as [_ _ _ Hpc Hidle].
-  destruct (pp s) as [|i|i| |] eqn:Ep.
+  destruct (pp s) as [|i|i p| |] eqn:Ep.
   - (* idle: the consumer is at start() *)
     specialize (Hidle eq_refl). eexists. eexists. eapply l_start; eauto.
   - (* loop head: always enabled *)
@@ -512,7 +551,7 @@ Inductive inevitably (c : cfg) (P : st -> Prop) : st -> Prop :=
 Definition final_ok (c : cfg) (s : st) : Prop :=
   final s /\
   q s = [] /\
-  taken s = map Frame (delivered c) ++ [Sentinel] /\
+  taken s = map (fr c) (delivered c) ++ [Sentinel] /\
   concat (yielded s) = delivered c /\
   yielded s = chunks (batch c) (delivered c).
 
@@ -587,10 +626,11 @@ Proof.
     destruct ((i =? j) && (i <? end_ c) && is_fault c i) eqn:Eb; try discriminate.
     inversion H; subst. assert (i = j) by lia. subst j.
     eapply lt_obs; [eapply l_read_fail; eauto; [lia | destruct (is_fault c i); simpl in *; auto; lia] | apply lt_nil].
-  - destruct (pp s) as [| |j| |] eqn:Ep; try discriminate.
-    destruct ((i =? j) && negb (full c (q s))) eqn:Eb; try discriminate.
-    inversion H; subst. assert (i = j) by lia. subst j.
-    eapply lt_obs; [eapply l_put; eauto; destruct (full c (q s)); simpl in *; auto; lia | apply lt_nil].
+  - destruct (pp s) as [| |j p'| |] eqn:Ep; try discriminate.
+    destruct ((i =? j) && pl_eqb p p' && negb (full c (q s))) eqn:Eb; try discriminate.
+    inversion H; subst. apply andb_prop in Eb. destruct Eb as [Eb Ef]. apply andb_prop in Eb. destruct Eb as [Ei Epl].
+    apply pl_eqb_eq in Epl. subst p'. assert (i = j) by lia. subst j.
+    eapply lt_obs; [eapply l_put; eauto; destruct (full c (q s)); simpl in *; auto; discriminate | apply lt_nil].
   - apply (ltrace_tau_pre c s (tau_p c s)).
     { destruct (tau_p_sound c s); auto. }
     destruct (pp (tau_p c s)) eqn:Ep; try discriminate.
@@ -600,14 +640,15 @@ Proof.
   - apply (ltrace_tau_pre c s (tau_c c s)).
     { destruct (tau_c_sound c s); auto. }
     destruct (cc (tau_c c s)) as [|[|k] acc| | |] eqn:Ec; try discriminate.
-    destruct (q (tau_c c s)) as [|[j|] r] eqn:Eq; try discriminate.
-    destruct (i =? j) eqn:Eb; try discriminate. inversion H; subst.
+    destruct (q (tau_c c s)) as [|[j p'|] r] eqn:Eq; try discriminate.
+    destruct ((i =? j) && pl_eqb p p') eqn:Eb; try discriminate. inversion H; subst.
+    apply andb_prop in Eb. destruct Eb as [Ei Epl]. apply pl_eqb_eq in Epl. subst p'.
     assert (i = j) by lia. subst j.
     eapply lt_obs; [eapply l_get_frame; eauto | apply lt_nil].
   - apply (ltrace_tau_pre c s (tau_c c s)).
     { destruct (tau_c_sound c s); auto. }
     destruct (cc (tau_c c s)) as [|[|k] acc| | |] eqn:Ec; try discriminate.
-    destruct (q (tau_c c s)) as [|[j|] r] eqn:Eq; try discriminate.
+    destruct (q (tau_c c s)) as [|[j p'|] r] eqn:Eq; try discriminate.
     inversion H; subst.
     eapply lt_obs; [eapply l_get_sentinel; eauto | apply lt_nil].
   - destruct (cc s) as [| |[|x acc]| |] eqn:Ec; try discriminate.
@@ -665,7 +706,7 @@ Qed.
 Definition yields_of (tr : list event) : list (list nat) :=
   flat_map (fun e => match e with EvYield b => [b] | _ => [] end) tr.
 Definition gets_of (tr : list event) : list item :=
-  flat_map (fun e => match e with EvGet i => [Frame i] | EvGetSent => [Sentinel] | _ => [] end) tr.
+  flat_map (fun e => match e with EvGet i p => [Frame i p] | EvGetSent => [Sentinel] | _ => [] end) tr.
 
 Definition obs1 (l : option event) : list event := match l with Some e => [e] | None => [] end.
 
@@ -691,7 +732,7 @@ Qed.
 (* an accepted trace shows exactly the specified stream and the specified batches *)
 Lemma accepts_spec : forall c tr, 0 < batch c -> accepts c tr = true ->
   yields_of tr = chunks (batch c) (delivered c) /\
-  gets_of tr = map Frame (delivered c) ++ [Sentinel].
+  gets_of tr = map (fr c) (delivered c) ++ [Sentinel].
 Proof.
   intros c tr Hb H. destruct (accepts_sound c tr H) as (s & Ht & Hr & Hf).
   destruct (final_ok_reach c s Hb Hr Hf) as (_ & _ & Htk & _ & Hy).
@@ -701,6 +742,11 @@ Qed.
 
 (* ------------------------------------------------------------------------ *)
 (* statements in the form used by Props.v                                     *)
+
+Lemma invariant_items : forall c s, reach c s ->
+  taken s ++ q s ++ map (fr c) (in_flight s ++ unread c s) ++ (match pp s with PDone => [] | _ => [Sentinel] end)
+  = map (fr c) (delivered c) ++ [Sentinel].
+Proof. intros c s H. exact (inv_stream c s (reach_inv c s H)). Qed.
 
 Lemma nothing_behind_marker : forall c s, reach c s -> done_ s = true -> pp s = PDone /\ q s = [].
 Proof. intros c s H. apply (inv_done_true c). apply reach_inv; auto. Qed.
@@ -721,7 +767,7 @@ Proof. intros c Hb. apply inevitably_final; auto. apply reach_init. Qed.
 Lemma final_ok_unfold : forall c s,
   final_ok c s =
   (final s /\ q s = [] /\
-   taken s = map Frame (delivered c) ++ [Sentinel] /\
+   taken s = map (fr c) (delivered c) ++ [Sentinel] /\
    concat (yielded s) = delivered c /\
    yielded s = chunks (batch c) (delivered c)).
 Proof. reflexivity. Qed.
@@ -796,7 +842,7 @@ Qed.
 
 Definition ex_cfg := mkCfg 1 4 2 2 (Some 3).   (* frames 1..3 requested, frame 3 cannot be read *)
 Definition ex_trace :=
-  [EvStart; EvReadOk 1; EvPut 1; EvReadOk 2; EvGet 1; EvPut 2; EvReadFail 3; EvGet 2;
+  [EvStart; EvReadOk 1; EvPut 1 pl0; EvReadOk 2; EvGet 1 pl0; EvPut 2 pl0; EvReadFail 3; EvGet 2 pl0;
    EvYield [1;2]; EvPutSent; EvGetSent; EvJoin].
 
 Lemma ex_trace_accepted : accepts ex_cfg ex_trace = true.
@@ -812,13 +858,31 @@ Qed.
 (* a trace that loses frame 2, one that repeats frame 1, one whose reader
    never closes the stream, one whose consumer stops without the marker *)
 Lemma ex_bad_traces_rejected :
-  accepts ex_cfg [EvStart; EvReadOk 1; EvPut 1; EvReadOk 2; EvGet 1; EvReadFail 3; EvPutSent;
+  accepts ex_cfg [EvStart; EvReadOk 1; EvPut 1 pl0; EvReadOk 2; EvGet 1 pl0; EvReadFail 3; EvPutSent;
                   EvGetSent; EvYield [1]; EvJoin] = false /\
-  accepts ex_cfg [EvStart; EvReadOk 1; EvPut 1; EvGet 1; EvReadOk 1; EvPut 1; EvGet 1] = false /\
-  accepts ex_cfg [EvStart; EvReadOk 1; EvPut 1; EvReadOk 2; EvGet 1; EvPut 2; EvReadFail 3; EvGet 2;
+  accepts ex_cfg [EvStart; EvReadOk 1; EvPut 1 pl0; EvGet 1 pl0; EvReadOk 1; EvPut 1 pl0; EvGet 1 pl0] = false /\
+  accepts ex_cfg [EvStart; EvReadOk 1; EvPut 1 pl0; EvReadOk 2; EvGet 1 pl0; EvPut 2 pl0; EvReadFail 3; EvGet 2 pl0;
                   EvYield [1;2]] = false /\
   accepts (mkCfg 0 2 1 2 None)
-          [EvStart; EvReadOk 0; EvPut 0; EvGet 0; EvReadOk 1; EvPut 1; EvGet 1; EvYield [0;1]; EvJoin] = false.
+          [EvStart; EvReadOk 0; EvPut 0 pl0; EvGet 0 pl0; EvReadOk 1; EvPut 1 pl0; EvGet 1 pl0; EvYield [0;1]; EvJoin] = false.
+Proof. vm_compute. repeat split; reflexivity. Qed.
+
+(* payloads: a source whose frames all differ in size and alternate between two videos *)
+Definition ex_pcfg := mkCfgS 1 4 2 2 (Some 3) (fun i => (2 + i, 5, i mod 2)).
+
+Lemma ex_payload_traces :
+  (* every item with the size / video of its own frame: accepted *)
+  accepts ex_pcfg [EvStart; EvReadOk 1; EvPut 1 (3,5,1); EvReadOk 2; EvGet 1 (3,5,1); EvPut 2 (4,5,0);
+                   EvReadFail 3; EvGet 2 (4,5,0); EvYield [1;2]; EvPutSent; EvGetSent; EvJoin] = true /\
+  (* frame 2 put with the size of frame 1 (a size computed once, outside the loop): rejected *)
+  accepts ex_pcfg [EvStart; EvReadOk 1; EvPut 1 (3,5,1); EvReadOk 2; EvGet 1 (3,5,1); EvPut 2 (3,5,0);
+                   EvReadFail 3; EvGet 2 (3,5,0); EvYield [1;2]; EvPutSent; EvGetSent; EvJoin] = false /\
+  (* frame 1 attributed to video 0: rejected *)
+  accepts ex_pcfg [EvStart; EvReadOk 1; EvPut 1 (3,5,0); EvReadOk 2; EvGet 1 (3,5,0); EvPut 2 (4,5,0);
+                   EvReadFail 3; EvGet 2 (4,5,0); EvYield [1;2]; EvPutSent; EvGetSent; EvJoin] = false /\
+  (* the item taken differs from the item put (one dictionary re-used and overwritten): rejected *)
+  accepts ex_pcfg [EvStart; EvReadOk 1; EvPut 1 (3,5,1); EvReadOk 2; EvPut 2 (4,5,0); EvGet 1 (4,5,0);
+                   EvReadFail 3; EvGet 2 (4,5,0); EvYield [1;2]; EvPutSent; EvGetSent; EvJoin] = false.
 Proof. vm_compute. repeat split; reflexivity. Qed.
 
 Lemma ex_delivered :
@@ -919,7 +983,7 @@ Proof.
     + constructor; simpl; auto; left; auto.
   - (* read ok *)
     destruct Lp as [Ep|(j & _ & _ & Ep)]; [|congruence].
-    exists (set_pp t (PPut i)). split.
+    exists (set_pp t (PPut i (src c i))). split.
     + unfold exec1. rewrite <- Ep, H0, Nat.eqb_refl, H2.
       destruct (Nat.ltb_spec i (end_ c)); [reflexivity|lia].
     + constructor; simpl; auto. left; auto.
@@ -934,8 +998,8 @@ Proof.
     constructor; simpl; auto. right. exists i. rewrite <- Ep. auto.
   - (* put *)
     destruct Lp as [Ep|(j & _ & _ & Ep)]; [|congruence].
-    exists (do_put t (Frame i) (PLoop (S i))). split.
-    + unfold exec1. rewrite <- Ep, H0, Nat.eqb_refl, <- Lq, H1. reflexivity.
+    exists (do_put t (Frame i p) (PLoop (S i))). split.
+    + unfold exec1. rewrite <- Ep, H0, Nat.eqb_refl, pl_eqb_refl, <- Lq, H1. reflexivity.
     + constructor; simpl; auto; try congruence. left; auto.
   - (* put sentinel *)
     destruct (tau_p_catch_up c t s Lp H0) as (U1 & U2 & U3 & U4 & U5 & U6).
@@ -948,7 +1012,7 @@ Proof.
     assert (Hn : cc s <> CProcess []) by congruence.
     destruct (tau_c_catch_up c t s Hb Lc Hn) as (U1 & U2 & U3 & U4 & U5 & U6).
     eexists. split.
-    + unfold exec1. cbv zeta. rewrite U1, U3, <- Lq, H0, H1, Nat.eqb_refl. reflexivity.
+    + unfold exec1. cbv zeta. rewrite U1, U3, <- Lq, H0, H1, Nat.eqb_refl, pl_eqb_refl. reflexivity.
     + constructor; simpl; try congruence.
       * eapply lag_p_eq; eauto.
       * left. simpl. congruence.
